@@ -12,6 +12,7 @@ CASES = {'quick': 1500, 'thorough': 60000}
 PARALLEL = False            # the implementation is run once per case in generate()'s own fork pool (see _precompute)
 PROOF_TIMEOUT = 1500
 ALLOWED_AXIOMS = ()
+DEPENDS = ['C03']        # coq/Model/C14.v imports Model/C03.v and Gen/Facts_C03.v: regenerate them from the tree under check
 RULE = ('one case = one Configurator (exception classes with single/multiple inheritance, HTTP exceptions, PredicateMismatch, '
         'marker interfaces put on instances; 1-3 ordinary views + 0-6 add_view/add_exception_view/add_notfound_view/'
         'add_forbidden_view declarations with contexts, route binding, predicates, exception_only; optionally more '
@@ -763,6 +764,56 @@ def kinds(case, obs):
         k.append('cfg:conflict-fallback')
     k.append('cfg:autocommit' if case['autocommit'] else 'cfg:batched')
     return k
+
+
+# ------------------------------------------------------------------ violation search
+def targeted(broken, disagreements, rng):
+    """Cases concentrated on (a) requests that already carry an exception (pre-set by a tween, or rendered by
+    request.invoke_exception_view() in a tween that then raises another one) and end without a view, (b) a second
+    view for the same class committed after the first rendering, (c) marker interfaces on instances, (d) exception
+    views that fail, (e) routed requests with global exception views."""
+    out = []
+    for i in range(400):
+        c = gen_case(rng)
+        k = i % 5
+        nexc = len(c['excs'])
+        if k == 0:
+            for r in c['requests']:
+                r['preset'] = rng.randrange(nexc)
+                if rng.random() < 0.5:
+                    r['under'] = ['catch', rng.random() < 0.5, rng.randrange(nexc)]
+            c['views'] = [v for v in c['views'] if not _exc_decl(v) or rng.random() < 0.4]
+        elif k == 1:
+            xs = [v for v in c['views'] if _exc_decl(v) and v['phase'] == 0]
+            tag = max([v['tag'] for v in c['views']] + [0]) + 1
+            for o in xs[:2]:
+                c['views'].append(dict(o, preds=gen_preds(rng, 1), phase=1, tag=tag, body=gen_body(rng, c['excs'], True)))
+                tag += 1
+            c['views'].sort(key=lambda v: v['phase'])
+            first = [r for r in c['requests'] if r['phase'] == 0]
+            c['requests'] = first + [dict(r, phase=1) for r in first]
+        elif k == 2:
+            for x in c['excs']:
+                x['marks'] = sorted(rng.sample(MARKS, rng.choice([1, 2])))
+            for v in c['views']:
+                if _exc_decl(v) and v['dir'] in ('view', 'exc') and rng.random() < 0.6:
+                    v['ctx'] = rng.choice(MARKS)
+        elif k == 3:
+            ok = [j for j, x in enumerate(c['excs']) if x['cls'] != 'PM']
+            for v in c['views']:
+                if _exc_decl(v) and ok and rng.random() < 0.7:
+                    v['body'] = {'touch': rng.random() < 0.5, 'act': ['raise', rng.choice(ok)]}
+        else:
+            if not c['routes']:
+                c['routes'] = [{'name': 'r1', 'ugv': rng.random() < 0.5}]
+            for r in c['requests']:
+                r['route'] = rng.choice([x['name'] for x in c['routes']])
+                if r['under'][0] == 'raise':
+                    r['under'] = ['pass']
+        if valid(c):
+            out.append(c)
+    _precompute(out)
+    return out
 
 
 def describe(case):
